@@ -40,6 +40,59 @@ def rand_graph(rng, acyclic=False):
     return {"nodes": nodes, "edges": [[i, j, F.fs(w)] for (i, j), w in sorted(edges.items())], "b": [[i, w] for i, w in bd.items()]}
 
 
+def scc_ok(nodes, edges, blocks):
+    """harness-side mirror of the Coq checker scc_check: partition, every edge goes to the same or a later block,
+    every block strongly connected"""
+    flat = [x for b in blocks for x in b]
+    if sorted(flat) != sorted(nodes) or any(not b for b in blocks):
+        return False
+    idx = {x: k for k, b in enumerate(blocks) for x in b}
+    if any(idx[i] > idx[j] for i, j in edges):
+        return False
+    es = set(map(tuple, edges))
+    for b in blocks:
+        for src in b:
+            seen, todo = {src}, [src]
+            while todo:
+                u = todo.pop()
+                for v in b:
+                    if (u, v) in es and v not in seen:
+                        seen.add(v)
+                        todo.append(v)
+            if set(b) - seen:
+                return False
+    return True
+
+
+def stream_sccs(ctx, quick):
+    """the block decomposition on ALL digraphs with three nodes (self-loops included) and on loop-free digraphs with four
+    nodes (all of them in the thorough tier), nodes inserted in two orders"""
+    import itertools
+    graphs = []
+    pairs3 = [(i, j) for i in range(3) for j in range(3)]
+    for mask in range(1 << 9):
+        graphs.append(([0, 1, 2], [list(p) for k, p in enumerate(pairs3) if mask >> k & 1]))
+    pairs4 = [(i, j) for i in range(4) for j in range(4) if i != j]
+    masks = range(1 << 12) if not quick else [ctx.rng.randrange(1 << 12) for _ in range(400)]
+    for mask in masks:
+        graphs.append(([0, 1, 2, 3], [list(p) for k, p in enumerate(pairs4) if mask >> k & 1]))
+    jobs = []
+    for nodes, edges in graphs:
+        jobs.append({"queries": [{"op": "blocks_only", "nodes": nodes, "edges": edges}, {"op": "blocks_only", "nodes": nodes[::-1], "edges": edges[::-1]}]})
+    res = run_w(jobs, hashseed=ctx.rng.randint(0, 3))
+    for (nodes, edges), r in zip(graphs, res):
+        ctx.dist(f"scc-exhaustive:nodes:{len(nodes)}")
+        for q in r:
+            ctx.cov["oracle_cases"] += 1
+            if "err" in q:
+                viol(ctx, f"blocks:error:{q['err'][:30]}", f"blocks raised {q['err']}", {"kind": "blocks", "graph": {"nodes": nodes, "edges": [[i, j, "1/4"] for i, j in edges], "b": []}, "blocks": None})
+                continue
+            ctx.count_case(("scc", tuple(nodes), tuple(map(tuple, edges))), nontrivial=bool(edges))
+            if not scc_ok(nodes, edges, q["ok"]):
+                viol(ctx, "blocks", f"the block decomposition {q['ok']} of the graph with edges {edges} is not the list of strongly connected components in an order compatible with the edges",
+                     {"kind": "blocks", "graph": {"nodes": nodes, "edges": [[i, j, "1/4"] for i, j in edges], "b": []}, "blocks": q["ok"]})
+
+
 def coq_mat(g):
     return "[" + "; ".join(f"({i}%nat, {j}%nat, {cq(Fraction(w))})" for i, j, w in g["edges"]) + "]"
 
@@ -133,6 +186,7 @@ def run(ctx):
         ok2, _ = ctx.build(["model/Blocks.vo"])
         if not ok2:
             return
+    stream_sccs(ctx, quick)
     n = 60 if quick else 600
     gs = [rand_graph(ctx.rng, acyclic=(k % 4 == 0)) for k in range(n)]
     res = run_w([{"queries": [{"op": "closure", "nodes": g["nodes"], "edges": g["edges"], "b": g["b"]}]} for g in gs], hashseed=ctx.rng.randint(0, 5))
